@@ -554,4 +554,40 @@ example : (∀ ij ∈ [(0, 0), (3, 3)], ij.1 < 8 ∧ ij.2 < 8) ∧
     (∀ ij ∈ [((0 : Nat), (0 : Nat)), (3, 3)], IpaVerif.C03.rowDot (tableU.getD ij.1 []) (tableV.getD ij.2 []) = minusOneHalf) ∧
     IpaVerif.C03.rowDot (tableU.getD 4 []) (tableV.getD 0 []) ≠ minusOneHalf := by decide
 
+/-- **the driver's operations refine the field operations**: on canonical representatives every operation of
+`natOps` (the `Fp61BitPrime` model of C08: Mersenne reduction, extended-Euclid inversion, `truncate_from`) returns a
+canonical representative of the result of the corresponding operation of `fieldOps (ZMod p)`. Since the batch model
+is built from these seven operations only, `Nat.cast` commutes with every function of `IpaVerif.DzkpBatch`
+(parametricity; not stated as a Lean theorem) — the theorems about `fieldOps F61` speak about what the driver
+computes with `natOps`, and the driver's output is compared with the real code by `c03_batch`. -/
+theorem natOps_refines_fieldOps (a b : Nat) (ha : a < fp61.p) (hb : b < fp61.p) :
+    (natOps.zero < fp61.p ∧ ((natOps.zero : Nat) : F61) = (fieldOps F61).zero) ∧
+    (natOps.one < fp61.p ∧ ((natOps.one : Nat) : F61) = (fieldOps F61).one) ∧
+    (natOps.add a b < fp61.p ∧ ((natOps.add a b : Nat) : F61) = (fieldOps F61).add a b) ∧
+    (natOps.sub a b < fp61.p ∧ ((natOps.sub a b : Nat) : F61) = (fieldOps F61).sub a b) ∧
+    (natOps.mul a b < fp61.p ∧ ((natOps.mul a b : Nat) : F61) = (fieldOps F61).mul a b) ∧
+    (a ≠ 0 → natOps.inv a < fp61.p ∧ ((natOps.inv a : Nat) : F61) = (fieldOps F61).inv a) ∧
+    (∀ n : Nat, n < 2 ^ 64 → natOps.ofNat n < fp61.p ∧ ((natOps.ofNat n : Nat) : F61) = (fieldOps F61).ofNat n) := by
+  have hc := IpaVerif.C08.canonical_ops hs61 ha hb
+  refine ⟨⟨by decide, by simp [natOps]⟩, ⟨by decide, by simp [natOps]⟩,
+    ⟨hc.1, IpaVerif.C08.toZMod_add hs61 ha hb⟩, ⟨hc.2.1, IpaVerif.C08.toZMod_sub hs61 ha hb⟩,
+    ⟨hc.2.2.1, IpaVerif.C08.toZMod_mul hs61 ha hb⟩, ?_, ?_⟩
+  · intro ha0
+    obtain ⟨i, hi, hinv, hmul, _⟩ := IpaVerif.C08.invert_correct fp61 (by simp [primeFields]) ha0 ha
+    have hval : natOps.inv a = i := by simp [natOps, hinv]
+    rw [hval]
+    refine ⟨hi, ?_⟩
+    have h1 : ((mul fp61 a i : Nat) : F61) = (a : F61) * (i : F61) := IpaVerif.C08.toZMod_mul hs61 ha hi
+    rw [hmul] at h1
+    show (i : F61) = (a : F61)⁻¹
+    exact eq_inv_of_mul_eq_one_right (by rw [← h1]; simp)
+  · intro n hn
+    have h1 : natOps.ofNat n = n % fp61.p := by
+      show truncateFrom fp61 n = _
+      unfold truncateFrom
+      exact IpaVerif.C08.reduce_eq_mod_fp61 _ (Nat.lt_trans hn (by decide))
+    rw [h1]
+    exact ⟨Nat.mod_lt _ (by decide), by simp [fieldOps]⟩
+
+
 end IpaVerif.C03Batch
